@@ -426,3 +426,93 @@ def _(ctx):
             continue
         a = [z3real(x) for x in calls[0]]
         ctx.prove(fn + '.precondition_of_' + callee, pre, z3.And(*_pre_fcw(a)), check_vacuity=False)
+
+# Contracts on single calls carry over to every call in a process only if no function keeps state between calls: C19's static-frame obligation is a lemma here.
+from contracts.shared import reregister as _rr_static
+from contracts import c19 as _c19_static
+_rr_static('C11', 'C19', 'C19.no_stateful_local_statics', 'C11.lemma.no_state_between_calls', replay=None)
+
+# ------------------------------------------------------------------------------------------------ MSSM: the Higgs mixing angle at M_A = M_Z
+# The MSSM two-loop Barr-Zee terms reach the "mass equal to MZ" configuration through tan_alpha(): tan(2 alpha) = tan(2 beta)(MA^2+MZ^2)/(MA^2-MZ^2) has a pole
+# at MA = MZ, and tan(alpha) must stay the NEGATIVE root of t x^2 + 2 x - t = 0 on both sides of it (documented: "the result is < 0", -pi/2 < alpha < 0).
+M2L = 'src/MSSMNoFV/gm2_2loop.cpp'
+
+TANALPHA_REPLAY = r'''
+#include "gm2calc/MSSMNoFV_onshell.hpp"
+#include <cstdio>
+#include <cmath>
+namespace gm2calc { double tan_alpha(const MSSMNoFV_onshell&); }
+// the REAL tan_alpha on a path of MA through MZ: negative, finite, equal to the (continuous) negative root of t x^2 + 2 x - t = 0
+int main(int argc, char** argv) {
+   int bad = 0;
+   for (double tb : {1.5, 3.0, 10.0, 50.0}) {
+      double prev = 0; bool have = false;
+      for (double d : {-1e-2, -1e-4, -1e-8, -1e-13, 0.0, 1e-13, 1e-8, 1e-4, 1e-2}) {
+         gm2calc::MSSMNoFV_onshell m; m.set_TB(tb); m.set_MA0(m.get_MZ() * (1 + d));
+         const double x = gm2calc::tan_alpha(m);
+         const double ma = m.get_MA0(), mz = m.get_MZ(), t2b = 2 * tb / (1 - tb * tb);
+         const double c = (ma * ma - mz * mz) / (t2b * (ma * ma + mz * mz));           // 1/tan(2 alpha), finite at MA = MZ
+         const double want = -c - std::sqrt(c * c + 1);
+         const bool ok = std::isfinite(x) && x < 0 && std::fabs(x - want) <= 1e-9 * std::fabs(want);
+         if (!ok) { bad++; std::printf("tan(beta)=%g MA=MZ(1%+g): tan_alpha = %.12g, negative root %.12g, previous point %.12g\n", tb, d, x, want, prev); }
+         prev = x; have = true;
+      }
+   }
+   std::printf("%d points out of contract\n", bad);
+   return bad ? 1 : 0;
+}
+'''
+
+def tan_alpha_replay(model, wd):
+    from gm2v import native
+    import subprocess
+    exe = native.build_against_library(wd, TANALPHA_REPLAY)
+    r = subprocess.run([exe], capture_output=True, text=True, timeout=120)
+    return r.returncode == 1, r.stdout.strip()[-1500:]
+
+@obligation('C11.mssm.tan_alpha.negative_root', fns=[(M2L, 'tan_alpha')], replay=tan_alpha_replay)
+def _(ctx):
+    """ensures for all tan(beta) > 0, tan(beta) != 1, MA, MZ > 0, MA != MZ:  x = tan_alpha(model) satisfies  t x^2 + 2 x - t == 0  with
+    t = tan(2 beta)(MA^2 + MZ^2)/(MA^2 - MZ^2)  and  x < 0  (the documented branch -pi/2 < alpha < 0) -- on BOTH sides of MA = MZ; no other division by zero, sqrt argument >= 0"""
+    tb, ma, mz = ctx.real('tb'), ctx.real('ma'), ctx.real('mz')
+    pre = [tb > 0, tb != 1, ma > 0, mz > 0, ma != mz]
+    it = Interp(ctx.w, mode='sym', assumptions=pre, stubs={'MSSMNoFV_onshell::get_TB': lambda i, a, t: tb, 'MSSMNoFV_onshell::get_MZ': lambda i, a, t: mz,
+                                                           'MSSMNoFV_onshell::get_MA0': lambda i, a, t: ma, 'get_TB': lambda i, a, t: tb, 'get_MZ': lambda i, a, t: mz, 'get_MA0': lambda i, a, t: ma})
+    m = it.new_object('MSSMNoFV_onshell')
+    ps = it.run_paths(lambda: it.call('tan_alpha', [m], file=M2L))
+    ctx.merge_rules(it)
+    t = 2 * tb / (1 - tb * tb) * (ma * ma + mz * mz) / (ma * ma - mz * mz)
+    pins = [{'tb': Fr(3), 'ma': Fr(50), 'mz': Fr(91)}, {'tb': Fr(3), 'ma': Fr(150), 'mz': Fr(91)}, {'tb': Fr(1, 2), 'ma': Fr(50), 'mz': Fr(91)}, {'tb': Fr(1, 2), 'ma': Fr(150), 'mz': Fr(91)}]
+    for k, (s, r, e) in enumerate(ps):
+        if e is not None or r is None:
+            ctx.record('path%d' % k, FAILED, 'B', 0, 'no value: %s' % e)
+            continue
+        x = z3real(r)
+        ctx.prove('path%d.negative' % k, pre + list(s.pc) + list(s.axioms), x < 0, pins=pins, tactics=('default', 'nlsat'))
+        ctx.prove('path%d.root_of_tan2alpha' % k, pre + list(s.pc) + list(s.axioms), t * x * x + 2 * x - t == 0, pins=pins, tactics=('default', 'nlsat'))
+        ctx.sides('path%d' % k, s, pre, pins=pins)
+    ctx.record('paths', PROVED if ps else ERROR, 'B', 0, '%d paths' % len(ps))
+
+@obligation('C11.mssm.tan_alpha.at_MA_equal_MZ', fns=[(M2L, 'tan_alpha')], backend='bounded', replay=tan_alpha_replay)
+def _(ctx):
+    """BOUNDED stand-in (IEEE execution of the extracted function, 60 points; CBMC does not finish on the symbolic multiplications/divisions here): at MA
+    bit-identical to MZ (tan(2 alpha) = +-inf) the result is exactly -1 (alpha = -pi/4): finite, negative, the common limit of both sides"""
+    import math
+    bad = []
+    n = 0
+    for tb in (0.2, 0.7, 1.0001, 1.5, 3.0, 10.0, 40.0, 60.0, 200.0, 1000.0):
+        for mz in (1.0, 50.0, 91.1876, 91.18760000000001, 150.0, 1.0e4):
+            it = Interp(ctx.w, mode='float', stubs={'MSSMNoFV_onshell::get_TB': lambda i, a, t, tb=tb: tb, 'MSSMNoFV_onshell::get_MZ': lambda i, a, t, mz=mz: mz,
+                                                     'MSSMNoFV_onshell::get_MA0': lambda i, a, t, mz=mz: mz, 'get_TB': lambda i, a, t, tb=tb: tb,
+                                                     'get_MZ': lambda i, a, t, mz=mz: mz, 'get_MA0': lambda i, a, t, mz=mz: mz})
+            m = it.new_object('MSSMNoFV_onshell')
+            try:
+                r = it.run_single(lambda: it.call('tan_alpha', [m], file=M2L))
+            except ZeroDivisionError:
+                r = float('nan')
+            n += 1
+            if not (isinstance(r, float) and r == -1.0):
+                bad.append((tb, mz, r))
+    ctx.record('', PROVED if not bad else FAILED, 'bounded', 0, 'bounded: %d points (tan beta x MZ) with MA == MZ; result == -1.0 at all of them' % n if not bad else
+               'tan_alpha at MA == MZ is %r for tan(beta)=%r, MZ=%r (expected -1)' % (bad[0][2], bad[0][0], bad[0][1]),
+               model={'_float': {'tb': bad[0][0], 'mz': bad[0][1]}} if bad else None, solver='float interpreter (IEEE doubles)', kind='bounded')
